@@ -36,15 +36,20 @@ func init() {
 	register("opmatch", func(t *tokens) string {
 		n := t.int()
 		opcs := make([]vOpcoder, 0, n)
-		interned := map[string][]byte{}
+		// Equal byte strings are one slice, and a byte string that is a
+		// prefix of an earlier one is a sub-slice of it (windows of one
+		// table).
+		var interned [][]byte
 		intern := func(b []byte) []byte {
 			if len(b) == 0 {
 				return b
 			}
-			if x, ok := interned[string(b)]; ok {
-				return x
+			for _, x := range interned {
+				if len(x) >= len(b) && string(x[:len(b)]) == string(b) {
+					return x[:len(b)]
+				}
 			}
-			interned[string(b)] = b
+			interned = append(interned, b)
 			return b
 		}
 		for i := 0; i < n; i++ {
